@@ -1,5 +1,6 @@
 import TLVerif.Util.Hex
 import TLVerif.Udp.Monitor
+import TLVerif.Udp.Window
 /-! Line-protocol handler for the `udp` family.
 
 `udp.mon <limit> <flags> <trace>`: run the monitor over a `;`-separated event trace (grammar in
@@ -65,8 +66,91 @@ def rejStr : Rej → String
 
 def memKeys (l : List (Nat × Nat)) : List Nat := (l.map (·.1)).eraseDups
 
+/-! ### window model ops (`udp.rcv`, `udp.snd`; formats in go/hudp/overlay/verif_window.go) -/
+
+def winByte (i o : Nat) : Nat := (i * 37 + o * 11 + 5) % 256
+
+def checksum (m : List Nat) : Nat :=
+  (m.foldl (fun (acc : Nat × Nat) b => ((acc.1 * 31 + b * (acc.2 % 7 + 1) + 1) % 4294967296, acc.2 + 1)) (0, 0)).1
+
+def partsOf (i : Nat) : Nat → List Nat → List Payload
+  | _, [] => []
+  | o, n :: ns => (List.range n).map (fun k => winByte i (o + k)) :: partsOf i (o + n) ns
+
+def parseMsgsAux (i : Nat) : List String → Option (List (List Payload))
+  | [] => some []
+  | m :: ms =>
+    match nats (m.splitOn "."), parseMsgsAux (i + 1) ms with
+    | some lens, some rest => if lens.all (· > 0) then some (partsOf i 0 lens :: rest) else none
+    | _, _ => none
+
+def parseMsgs (spec : String) : Option (List (List Payload)) :=
+  if spec == "-" then some [] else parseMsgsAux 0 (spec.splitOn ",")
+
+def dash (s : String) : String := if s.isEmpty then "-" else s
+
+def msgStr (m : Payload) : String := s!"{m.length}:{checksum m}"
+
+/-- returns the final receiver, the per-datagram reports and the highest sequence number that arrived (+1) -/
+def rcvRun (chunks : List Chunk) : Recv → Nat → List String → List String → Option (Recv × Nat × List String)
+  | r, hi, [], acc => some (r, hi, acc.reverse)
+  | r, hi, a :: as, acc =>
+    match nats (a.splitOn "+") with
+    | some [from_, count] =>
+      if count = 0 then none
+      else if from_ + count > chunks.length then
+        rcvRun chunks r hi as (s!"p{r.ackPrefix}d{r.delivered.length}r-" :: acc)
+      else
+        let r' := (List.range count).foldl (fun r k => arrive chunks r (from_ + k)) r
+        rcvRun chunks r' (max hi (from_ + count)) as
+          (s!"p{r'.ackPrefix}d{r'.delivered.length}r{from_}-{from_ + count - 1}" :: acc)
+    | _ => none
+
+/-- acquired memory as the Go code accounts it (not part of the proved model): the stream offset of the
+end of the furthest message any chunk of which has arrived, minus what was handed over -/
+def rcvMem (msgs : List (List Payload)) (chunks : List Chunk) (hi : Nat) (r : Recv) : Nat :=
+  match hi with
+  | 0 => 0
+  | h + 1 =>
+    match chunks[h]? with
+    | none => 0
+    | some c => (((msgs.take (c.msg + 1)).map (fun m => m.flatten.length)).foldl (· + ·) 0) -
+                ((r.delivered.map (·.length)).foldl (· + ·) 0)
+
+def flagsStr (w : List OChunk) : String := String.ofList (w.map (fun c => if c.acked then '1' else '0'))
+
+def sndRun : Send → List String → List String → Option (Send × List String)
+  | s, [], acc => some (s, acc.reverse)
+  | s, op :: ops, acc =>
+    match (op.drop 1).toString.toNat? with
+    | none => none
+    | some n =>
+      let c := op.front
+      let s' : Option Send :=
+        if c == 'm' then (if n < 1 || s.nextMsg > 250 then none else some (s.push n))
+        else if c == 'c' then some (s.ackChunk n)
+        else if c == 'p' then some (s.ackPrefixTo n)
+        else none
+      match s' with
+      | none => none
+      | some s' =>
+        sndRun s' ops (s!"{s'.ackPrefix}:{s'.nextSeq}:{dash (flagsStr s'.window)}:{s'.released.length}" :: acc)
+
 def handle (op : String) (args : List String) : String :=
   match op, args with
+  | "rcv", [spec, arrivals] =>
+    match parseMsgs spec with
+    | none => "bad-op"
+    | some msgs =>
+      match rcvRun (chunksOf msgs) {} 0 (if arrivals == "-" then [] else arrivals.splitOn ",") [] with
+      | none => "bad-op"
+      | some (r, hi, steps) =>
+        s!"ok {dash (",".intercalate steps)} {dash (",".intercalate (r.delivered.map msgStr))} mem={rcvMem msgs (chunksOf msgs) hi r}"
+  | "snd", [ops] =>
+    match sndRun {} (if ops == "-" then [] else ops.splitOn ",") [] with
+    | none => "bad-op"
+    | some (s, steps) =>
+      s!"ok {dash (",".intercalate steps)} {dash (",".intercalate (s.released.map toString))}"
   | "mon", [lim, fl, tr] =>
     match lim.toNat?, fl.toNat?, parseTrace tr with
     | some limit, some flags, some evs =>
